@@ -86,7 +86,9 @@ pub fn check_unit(rep: &mut Rep, e_c: i128, s: TimeScale) {
         // the boundary where the (centuries, nanoseconds) form carries
         let k = (e_c.rem_euclid(6) - 2) * NPC;
         let cu0 = unit_ns(u);
-        for e_c in [e_c, k - cu0, k + cu0] {
+        // ... and from readings within one unit of the 64-bit thresholds of the nanosecond count
+        let t = [(1i128 << 63) - 1, -(1i128 << 63), 1i128 << 64, 1i128 << 53][(e_c.rem_euclid(4)) as usize];
+        for e_c in [e_c, k - cu0, k + cu0, t - cu0 / 2 - 1, t - 1, t + 1, t - cu0, t + cu0 / 3] {
         if !rep.tick() {
             continue;
         }
